@@ -280,41 +280,142 @@ Proof.
 Qed.
 
 (* ------------------------------------------------------------------ *)
+(* the refactoring keeps every field in its Go range                     *)
+
+Lemma setk_u32 op m : u32_ok op -> 0 <= m < 65536 -> u32_ok (setk op m).
+Proof.
+  unfold u32_ok, setk, hi. intros H Hm.
+  assert (0 <= op / 65536 < 65536).
+  { split; [apply Z.div_pos; lia|apply Z.div_lt_upper_bound; lia]. }
+  lia.
+Qed.
+
+Lemma rloop_wf (getk getclos : Z -> rres cst) :
+  (forall n k, getk n = ROk k -> wf k) -> (forall n k, getclos n = ROk k -> wf k) ->
+  forall ops cmap acc ops' consts',
+  rloop getk getclos ops cmap acc = ROk (ops', consts') ->
+  Forall u32_ok ops -> (forall k, In k acc -> wf k) -> zlen acc <= 65536 ->
+  (forall n m, assoc n cmap = Some m -> 0 <= m < zlen acc) ->
+  Forall u32_ok ops' /\ (forall k, In k consts' -> wf k).
+Proof.
+  intros Hgk Hgc. induction ops as [|op r IH]; intros cmap acc ops' consts' H Hops Hacc Hlen Hinv; cbn [rloop] in H.
+  - inversion H; subst. split; [constructor|exact Hacc].
+  - inversion Hops as [|? ? Hop Hr]; subst. pose proof (zlen_nonneg acc).
+    destruct (loadsK op) eqn:LK.
+    + destruct (assoc (kidx op) cmap) as [m|] eqn:AS.
+      * destruct (rloop getk getclos r cmap acc) as [[o a]| | |] eqn:R; try discriminate.
+        inversion H; subst. destruct (IH _ _ _ _ R Hr Hacc Hlen Hinv) as [F W].
+        split; [|exact W]. constructor; [|exact F]. apply setk_u32; [exact Hop|]. pose proof (Hinv _ _ AS). lia.
+      * destruct (65535 <? zlen acc) eqn:LT; [discriminate|].
+        destruct (if isClosureK op then getclos (kidx op) else getk (kidx op)) as [k| | |] eqn:G; try discriminate.
+        destruct (rloop getk getclos r ((kidx op, zlen acc) :: cmap) (acc ++ [k])) as [[o a]| | |] eqn:R; try discriminate.
+        inversion H; subst.
+        assert (Wk : wf k) by (destruct (isClosureK op); eauto).
+        destruct (IH _ _ _ _ R Hr) as [F W].
+        -- intros x Hx. apply in_app_or in Hx. destruct Hx as [Hx|[<-|[]]]; auto.
+        -- rewrite zlen_snoc. lia.
+        -- intros n m. cbn [assoc]. rewrite zlen_snoc. destruct (kidx op =? n).
+           ++ intros X; inversion X; lia.
+           ++ intros X. pose proof (Hinv _ _ X). lia.
+        -- split; [|exact W]. constructor; [|exact F]. apply setk_u32; [exact Hop|lia].
+    + destruct (rloop getk getclos r cmap acc) as [[o a]| | |] eqn:R; try discriminate.
+      inversion H; subst. destruct (IH _ _ _ _ R Hr Hacc Hlen Hinv) as [F W].
+      split; [|exact W]. now constructor.
+Qed.
+
+Lemma wf_head_set_ops h o : wf_head h -> Forall u32_ok o -> wf_head (set_ops h o).
+Proof. intros [H1 H2 H3 H4 H5] Ho. constructor; cbn; assumption. Qed.
+
+Theorem refactor_wf : forall k k', wf k -> refactor_cst k = ROk k' -> wf k'.
+Proof.
+  induction k as [z|b|s|h ks IH] using cst_ind'; intros k' Hwf H; try discriminate.
+  destruct (refactor_cst_shape _ _ H) as (h0 & ks0 & o & a & E & -> & R).
+  inversion E; subst h0 ks0. rewrite wf_code in Hwf. destruct Hwf as [Hh Hks].
+  assert (P1 : forall n k, nth_r (map ROk ks) n = ROk k -> wf k).
+  { intros n k Hg. destruct (nth_r_map_inv _ _ _ _ Hg) as (c & Hc & Ec). inversion Ec; subst.
+    apply Hks. eapply nth_error_In; eauto. }
+  assert (P2 : forall n k, nth_r (map refactor_cst ks) n = ROk k -> wf k).
+  { intros n k Hg. destruct (nth_r_map_inv _ _ _ _ Hg) as (c & Hc & Ec).
+    apply nth_error_In in Hc. eapply IH; eauto. }
+  destruct (rloop_wf _ _ P1 P2 _ _ _ _ _ R) as [F W].
+  - destruct Hh; assumption.
+  - intros k [].
+  - unfold zlen; cbn; lia.
+  - cbn; discriminate.
+  - rewrite wf_code. split; [apply wf_head_set_ops; assumption|exact W].
+Qed.
+
+(* a compiled unit whose entries are in range *)
+Definition wf_ucst (c : ucst) : Prop :=
+  match c with
+  | UInt z => - two63 <= z < two63
+  | UFlt b => 0 <= b < two64
+  | UStr _ => True
+  | UCode h => wf_head h
+  end.
+
+Theorem refactor_unit_wf : forall fuel u n k,
+  (forall c, In c u -> wf_ucst c) -> refactor_unit fuel u n = ROk k -> wf k.
+Proof.
+  induction fuel as [|f IH]; intros u n k Hu H; cbn [refactor_unit] in H; [discriminate|].
+  destruct (nth_error u (Z.to_nat n)) as [[z|b|s|h]|] eqn:En; try discriminate.
+  destruct (rloop (getk_u u) (refactor_unit f u) (ops h) [] []) as [[o a]| | |] eqn:R; try discriminate.
+  inversion H; subst. apply nth_error_In in En. pose proof (Hu _ En) as Hh. cbn in Hh.
+  assert (P1 : forall m c, getk_u u m = ROk c -> wf c).
+  { intros m c. unfold getk_u. destruct (nth_error u (Z.to_nat m)) as [[z|b|s|h']|] eqn:Em; try discriminate;
+      intros X; inversion X; subst; apply nth_error_In in Em; pose proof (Hu _ Em) as Q; cbn in Q; cbn [wf]; auto. }
+  assert (P2 : forall m c, refactor_unit f u m = ROk c -> wf c).
+  { intros m c Hc. eapply IH; eauto. }
+  destruct (rloop_wf _ _ P1 P2 _ _ _ _ _ R) as [F W].
+  - destruct Hh; assumption.
+  - intros c [].
+  - unfold zlen; cbn; lia.
+  - cbn; discriminate.
+  - rewrite wf_code. split; [apply wf_head_set_ops; assumption|exact W].
+Qed.
+
+(* ------------------------------------------------------------------ *)
 (* string.dump, load, string.dump                                        *)
 
 Theorem dump_load_dump_stable : forall lim k h' ks' bs,
-  0 <= lim <= maxAlloc ->
-  dump k = ROk bs ->
-  refactor_cst k = ROk (KCode h' ks') -> wf lim (KCode h' ks') -> 0 <= upvalueCount h' ->
+  wf k -> dump k = ROk bs -> refactor_cst k = ROk (KCode h' ks') ->
+  48 * zlen bs + 66048 <= lim <= maxAlloc ->
   load_binary lim 0 bs = LFun (KCode h' ks') (upvalueCount h') /\
   dump (KCode h' ks') = ROk bs.
 Proof.
-  intros lim k h' ks' bs Hl Hd Hr Hwf Hu. unfold dump in *. rewrite Hr in Hd. inversion Hd; subst bs.
-  split; [now apply load_marshal|].
-  now rewrite (refactor_idempotent _ _ Hr).
+  intros lim k h' ks' bs Hwf Hd Hr Hl. unfold dump in *. rewrite Hr in Hd.
+  assert (E : bs = marshal (KCode h' ks')) by (inversion Hd; reflexivity). subst bs.
+  split.
+  - apply load_marshal; [eapply refactor_wf; eauto|].
+    unfold marshal, marshalPrefix in Hl. rewrite zlen_app in Hl. fold (cost (KCode h' ks')) in Hl.
+    pose proof (zlen_nonneg [6; 0; 4]). lia.
+  - now rewrite (refactor_idempotent _ _ Hr).
 Qed.
 
 Theorem dump_unit_load_dump_stable : forall lim u n h' ks' bs,
-  0 <= lim <= maxAlloc ->
-  dump_unit u n = ROk bs ->
-  refactor_unit (S (length u)) u n = ROk (KCode h' ks') -> wf lim (KCode h' ks') -> 0 <= upvalueCount h' ->
+  (forall c, In c u -> wf_ucst c) ->
+  dump_unit u n = ROk bs -> refactor_unit (S (length u)) u n = ROk (KCode h' ks') ->
+  48 * zlen bs + 66048 <= lim <= maxAlloc ->
   load_binary lim 0 bs = LFun (KCode h' ks') (upvalueCount h') /\
   dump (KCode h' ks') = ROk bs.
 Proof.
-  intros lim u n h' ks' bs Hl Hd Hr Hwf Hu. unfold dump_unit, dump in *. rewrite Hr in Hd. inversion Hd; subst bs.
-  split; [now apply load_marshal|].
-  now rewrite (refactor_unit_fixed_point _ _ _ _ Hr).
+  intros lim u n h' ks' bs Hu Hd Hr Hl. unfold dump_unit, dump in *. rewrite Hr in Hd.
+  assert (E : bs = marshal (KCode h' ks')) by (inversion Hd; reflexivity). subst bs.
+  split.
+  - apply load_marshal; [eapply refactor_unit_wf; eauto|].
+    unfold marshal, marshalPrefix in Hl. rewrite zlen_app in Hl. fold (cost (KCode h' ks')) in Hl.
+    pose proof (zlen_nonneg [6; 0; 4]). lia.
+  - now rewrite (refactor_unit_fixed_point _ _ _ _ Hr).
 Qed.
 
 (* dumping is a function of the code: equal codes, equal bytes; and different
    refactored codes never share their bytes *)
-Theorem dump_deterministic_injective : forall lim k1 k2 k1' k2',
-  0 <= lim <= maxAlloc ->
-  refactor_cst k1 = ROk k1' -> refactor_cst k2 = ROk k2' -> wf lim k1' -> wf lim k2' ->
+Theorem dump_deterministic_injective : forall k1 k2 k1' k2',
+  wf k1 -> wf k2 -> refactor_cst k1 = ROk k1' -> refactor_cst k2 = ROk k2' -> fits k1' ->
   (dump k1 = dump k2 <-> k1' = k2').
 Proof.
-  intros lim k1 k2 k1' k2' Hl H1 H2 W1 W2. unfold dump. rewrite H1, H2. split.
-  - intros E. apply (marshal_injective lim k1' k2' Hl W1 W2).
+  intros k1 k2 k1' k2' W1 W2 H1 H2 F. unfold dump. rewrite H1, H2. split.
+  - intros E. apply (marshal_injective k1' k2'); [exact (refactor_wf _ _ W1 H1)|exact (refactor_wf _ _ W2 H2)|exact F|].
     exact (f_equal (fun r : rres bytes => match r with ROk x => x | _ => [] end) E).
   - now intros ->.
 Qed.
